@@ -275,6 +275,11 @@ func crashHistories(seed *CrashSeed, thorough bool) [][]HOp {
 	for _, p := range p2 {
 		withCkpt(progOps(seed, 1, p))
 	}
+	// ... followed by a clean shutdown (crash points inside Shutdown(): the graceful-shutdown record may be
+	// on disk while pages are not)
+	for _, p := range p2 {
+		out = append(out, append(progOps(seed, 1, p), HOp{Kind: "shutdown"}))
+	}
 	// two transactions, one statement each, all interleavings (begin glued to the first statement)
 	for _, a := range p1 {
 		for _, b := range p1 {
@@ -727,7 +732,7 @@ func init() {
 				if tier == "thorough" {
 					return 40 * time.Minute
 				}
-				return 4 * time.Minute
+				return 8 * time.Minute
 			},
 			Assume: crashAssume,
 			Run:    func(c *core.Ctx) { crashExplore(c, prop) },
